@@ -150,7 +150,7 @@ def run_tlc(module, cfg, workers=None, timeout=600, extra_files=None, simulate=N
     r = TLCResult()
     r.wall = time.time() - t0
     r.rc = p.returncode
-    r.out = p.stdout + p.stderr
+    r.out = "\n".join(ln for ln in (p.stdout + p.stderr).splitlines() if not ln.startswith("Loading ") and not ln.startswith("Parsing file") and not ln.startswith("Semantic processing") and not ln.startswith("Linting of"))
     m = None
     for m in _RE_STATS.finditer(r.out):
         pass
